@@ -470,6 +470,18 @@ def c04(tier, rng):
                 q = bytearray(p)
                 q[1] = p[1] + delta
                 add("running", bytes(q) + (b"\x00" * max(0, delta)), ["remlen%+d" % delta])
+    # never wedged with unread input: a PINGRESP handed over in the same read as the end of other packets, nothing after it -
+    # the ping pending since the start completes
+    glue = [M.puback(1), M.publish(b"t", b"p"), M.publish(b"t", b"", 1, 5, ps=[(11, 1)]), M.suback(3, [0]), M.pubrel(4),
+            M.pingresp(), M.puback(1) + M.pubcomp(2), M.publish(b"t", b"x" * 600), M.auth()[:0]]
+    for g in glue:
+        for chunks in (1, 2):
+            bs = g + M.pingresp()
+            if chunks == 1:
+                d = "deliver " + hx(bs)
+            else:
+                d = "deliver %s ; deliver %s" % (hx(bs[:1]), hx(bs[1:])) if len(bs) > 2 else "deliver " + hx(bs)
+            out.append(case("glued-pingresp-%d-%d" % (glue.index(g), chunks), phases["running"] + " ; " + d + " ; poll 0 ; poll 1 ; poll 0", ["running", "glued"]))
     # over-long variable byte integers, in the length field and in a property
     for v in (b"\xff\xff\xff\xff\x7f", b"\x80\x80\x80\x80\x00", b"\xff\xff\xff\x7f", b"\x80\x80\x80\x80\x80"):
         add("running", b"\x40" + v, ["varint5"])
